@@ -27,7 +27,7 @@ pub struct RealCode {
     pub codewords: Vec<Vec<u8>>,
 }
 
-const NAMES_RC: [&str; 4] = ["dvbs2-1/2-short", "dvbs2-8/9-short", "ar4ja-1/2-k1024", "ar4ja-4/5-k1024"];
+const NAMES_RC: [&str; 5] = ["dvbs2-1/2-short", "dvbs2-8/9-short", "ar4ja-1/2-k1024", "ar4ja-4/5-k1024", "synthetic-70000"];
 
 fn staircase_codewords(h: &SparseMatrix, k: usize, count: usize) -> Vec<Vec<u8>> {
     // own accumulator encoding for [H0 | dual diagonal]
@@ -53,8 +53,37 @@ fn staircase_codewords(h: &SparseMatrix, k: usize, count: usize) -> Vec<Vec<u8>>
     out
 }
 
+/// a code longer than 2^16 bits (longer than any code of the toolbox): 35 000 checks, 35 600
+/// message columns of weight 3 at pseudo-random rows, staircase parity part
+fn synthetic_70000() -> SparseMatrix {
+    let (r, k) = (35_000usize, 35_600usize);
+    let mut h = SparseMatrix::new(r, r + k);
+    for j in 0..k {
+        for (a, b) in [(1usize, 0usize), (7, 3), (13, 11)] {
+            h.insert((a * j + b + j / r) % r, j);
+        }
+    }
+    h.insert(0, k);
+    for i in 1..r {
+        h.insert(i, k + i);
+        h.insert(i, k + i - 1);
+    }
+    h
+}
+
 fn build(name: &'static str) -> RealCode {
     match name {
+        "synthetic-70000" => {
+            let h = synthetic_70000();
+            let n = h.num_cols();
+            let k = n - h.num_rows();
+            let codewords = staircase_codewords(&h, k, 2);
+            let rows = sorted_rows(&h);
+            for c in &codewords {
+                assert!(syndrome_rows_ok(&rows, c), "own encoder produced a non-codeword");
+            }
+            RealCode { name, rows, k, punctured: vec![false; n], codewords, n, h: std::sync::Mutex::new(h) }
+        }
         "dvbs2-1/2-short" | "dvbs2-8/9-short" => {
             let code = if name == "dvbs2-1/2-short" { Code::R1_2short } else { Code::R8_9short };
             let h = code.h();
@@ -105,8 +134,8 @@ impl RealCode {
 }
 
 pub fn code(i: usize) -> &'static RealCode {
-    static CODES: [OnceLock<RealCode>; 4] = [const { OnceLock::new() }; 4];
-    CODES[i % 4].get_or_init(|| build(NAMES_RC[i % 4]))
+    static CODES: [OnceLock<RealCode>; 5] = [const { OnceLock::new() }; 5];
+    CODES[i % 5].get_or_init(|| build(NAMES_RC[i % 5]))
 }
 
 #[derive(Debug, Clone, Serialize, Deserialize)]
@@ -121,7 +150,7 @@ pub struct RcCase {
 }
 
 pub fn strategy(_t: Tier) -> BoxedStrategy<RcCase> {
-    (0usize..4, 0usize..4, any::<u64>(), prop_oneof![4 => 0.8f64..1.1, 1 => 0.3f64..0.8, 1 => 1.1f64..2.0], prop_oneof![Just(0usize), Just(1), Just(5), Just(20), Just(50)], 1usize..=3)
+    (0usize..5, 0usize..4, any::<u64>(), prop_oneof![4 => 0.8f64..1.1, 1 => 0.3f64..0.8, 1 => 1.1f64..2.0], prop_oneof![Just(0usize), Just(1), Just(5), Just(20), Just(50)], 1usize..=3)
         .prop_map(|(code, codeword, noise_seed, sigma, limit, frames)| RcCase { code, codeword, noise_seed, sigma: Fx(sigma), limit, frames })
         .boxed()
 }
@@ -134,6 +163,7 @@ pub fn llrs_for(rc: &RealCode, case: &RcCase, frame: usize) -> Vec<f64> {
         "dvbs2-1/2-short" => 0.85,
         "dvbs2-8/9-short" => 0.46,
         "ar4ja-1/2-k1024" => 0.84,
+        "synthetic-70000" => 0.80,
         _ => 0.60,
     };
     let sigma = case.sigma.0 * threshold;
